@@ -82,6 +82,11 @@ func mergeSchemas(sources []*ast.Schema) (*ast.Schema, error) {
 			}
 			result.Types[name] = previousDefinition
 		}
+
+		// a name that one service uses for an interface can not be another kind of type somewhere else
+		if otherDefinitions := types[name]; len(otherDefinitions) > 0 {
+			return nil, fmt.Errorf("type %s is defined as %s and as %s in different services", name, ast.Interface, otherDefinitions[0].Kind)
+		}
 	}
 
 	possibleTypesSet := map[string]Set{}
@@ -127,6 +132,11 @@ func mergeSchemas(sources []*ast.Schema) (*ast.Schema, error) {
 			// we only want one copy of the internal stuff
 			if strings.HasPrefix(definition.Name, "__") {
 				continue
+			}
+
+			// the definitions of a type have to be of the same kind
+			if previousDefinition.Kind != definition.Kind {
+				return nil, fmt.Errorf("type %s is defined as %s and as %s in different services", name, previousDefinition.Kind, definition.Kind)
 			}
 
 			// unify handling of errors for merging
